@@ -180,6 +180,9 @@ class LitJudge(Judge):
         if mode == 'exlit':
             a = norm_abs(obj)
             specs = render_schema(a['schema'], examples=a['examples'])
+            if a.get('pn', 'Probe') != 'Probe':
+                # the probe struct is written with the name of the struct of nsb that its field holds
+                specs = [(p_, t_.replace('struct Probe', 'struct ' + a['pn']) if p_ == 'nsa.stone' else t_) for p_, t_ in specs]
             what = 'example f1 = %s for a field of type %s' % (
                 [l for l in dict(specs)['nsa.stone'].split('\n') if l.strip().startswith('f1 =')][0].split('=', 1)[1].strip(),
                 render_type(a['t'], 'nsa', a['schema']))
